@@ -70,13 +70,18 @@ def replay(ctx, beh, label, spin=False):
     ctx.log("replay %s: %d behaviours, %d steps, %d comparisons, %d mismatches" %
             (label, st["behaviours"], st["steps"], st["compared"], len(js.get("mismatches") or [])))
     lines = None
+    groups = {}
     for m in js.get("mismatches") or []:
+        key = (m["what"], (m.get("cmd") or ["-"])[0])
+        groups.setdefault(key, []).append(m)
+    for key, ms in list(groups.items())[:8]:
+        m = ms[0]
         if lines is None:
             lines = open(beh).read().split("\n")
-        text = "%s mismatch at step %d of behaviour %d (%s): cmd=%s %s" % (
-            m["what"], m["step"], m["behaviour"], label, m.get("cmd"), m["detail"])
-        common.report(ctx, "c01-" + label, text, {"kind": "ks-behaviour", "behaviour": lines[m["behaviour"]],
-                                                    "mismatch": m})
+        text = "%s mismatch (%d behaviours in this class) at step %d of behaviour %d (%s): cmd=%s %s" % (
+            m["what"], len(ms), m["step"], m["behaviour"], label, m.get("cmd"), m["detail"])
+        common.report(ctx, "c01-%s-%s-%s" % (label, key[0], key[1].lower()), text,
+                      {"kind": "ks-behaviour", "behaviour": lines[m["behaviour"]], "mismatch": m})
     return st, js
 
 
